@@ -107,7 +107,9 @@ Proof.
       * destruct (choose c (tidx s) (lastc s)) as [[[w ti] lc]|]; [|discriminate].
         destruct (nth_error (slots s) w) as [sl|] eqn:Hn; inversion Hs; subst; clear Hs.
         fin s w sl Hn t.
-    + destruct rem as [|ch rem']; inversion Hs; subst; clear Hs; fin s 0 (@None slot) Hm t.
+    + destruct (predraw _ _).
+      * destruct (items s) as [|x it] eqn:Hi; inversion Hs; subst; clear Hs. fin s 0 (@None slot) Hm t.
+      * destruct rem as [|ch rem']; inversion Hs; subst; clear Hs; fin s 0 (@None slot) Hm t.
     + destruct (items s) as [|x it] eqn:Hi.
       * destruct (exhausted _ _); inversion Hs; subst; clear Hs. fin s 0 (@None slot) Hm t.
       * inversion Hs; subst; clear Hs. fin s 0 (@None slot) Hm t.
